@@ -21,7 +21,9 @@ Chars(s) == s
 ManyCfg == [ budget |-> Budget,
              \* (two names that differ only by a Latin-1 sharp s vs "ss": distinct tags)
              tags |-> [ i \in 1 .. 12 |-> [name |-> (IF i = 11 THEN <<77, 97, 223>> ELSE IF i = 12 THEN <<77, 97, 115, 115>> ELSE <<64 + i>>), type |-> (IF i % 3 = 0 THEN T2 ELSE T1),
-                                           len |-> (IF i % 2 = 0 THEN 1 ELSE 2), scalar |-> (i % 2 = 0), cia |-> <<2, 1, i>>] ] ]
+                                           len |-> (IF i % 2 = 0 THEN 1 ELSE 2), scalar |-> (i % 2 = 0), cia |-> <<2, 1, i>>]
+                                          \* (tags 4 and 5 are configured with a forced error code)
+                                          @@ (IF i \in {4, 5} THEN [error |-> 16] ELSE <<>>) ] ]
 FourCfg == [ budget |-> Budget,
           tags |-> << [name |-> <<65>>,        type |-> T1, len |-> 3, scalar |-> FALSE, cia |-> <<2, 1, 1>>],
                       [name |-> <<66, 98>>,    type |-> T1, len |-> 1, scalar |-> TRUE,  cia |-> (IF Foreign THEN <<2, 5, 1>> ELSE <<2, 1, 2>>)],
